@@ -276,7 +276,8 @@ func TestVerifControlCover(t *testing.T) {
 	rep := vsup.NewReport("control-cover")
 	n := 0
 	for ei, e := range g.Edges {
-		if g.Depth[e.From] < 0 || e.Action == "Norm" || e.Action == "Finish" {
+		// (Finish edges are replayed too: the shutdown requested by a Stop whose context had ended must complete)
+		if g.Depth[e.From] < 0 || e.Action == "Norm" {
 			continue
 		}
 		path := append(g.PathTo(e.From), ei)
